@@ -70,6 +70,50 @@ impl Prop for C08 {
                 Some(Case::Line(ts))
             },
         ));
+        {
+            // the pair generators of C12 and C06, with fractional and grouped amounts
+            use crate::model::units::{Kind, UNITS};
+            let mut upairs: Vec<(usize, usize)> = Vec::new();
+            for (i, a) in UNITS.iter().enumerate() {
+                for (j, b) in UNITS.iter().enumerate() {
+                    if a.kind == b.kind && i != j && (tier == Tier::Thorough || a.kind == Kind::Length) {
+                        upairs.push((i, j));
+                    }
+                }
+            }
+            let amounts: Vec<(&'static str, bool)> = tier.pick(vec![("1.5", false), ("1234.5", true)], vec![("1.5", false), ("0.25", false), ("1234.5", true), ("1234.5", false), ("0.001", false), ("1000000.75", true)]);
+            let (np, na) = (upairs.len(), amounts.len());
+            f.push(Family::new(
+                "unit-pairs",
+                Mode::Full,
+                &format!("'x A to B' for {} ordered same-kind unit pairs (quick: lengths within and across metric/imperial; thorough: all kinds) x {} fractional / grouped amounts, rendered and evaluated under all 4 conventions: the nested evaluation of every chain step and bridge sees fractional intermediate values in both directions", np, na),
+                move |ch| {
+                    let (i, j) = *ch.pick(&upairs);
+                    let (a, g) = *ch.pick(&amounts);
+                    Some(Case::Line(corpus::tpl(&format!("N:{}{} W:{} K:to W:{}", a, if g { "g" } else { "" }, UNITS[i].short, UNITS[j].short))))
+                },
+            ));
+            let rated = crate::spec::spec().rated();
+            let curs: Vec<String> = if tier == Tier::Thorough { rated } else { rated.into_iter().step_by(4).collect() };
+            let nc = curs.len();
+            f.push(Family::new(
+                "money-pairs",
+                Mode::Full,
+                &format!("'x A to B', 'x A + 2,5 B' and 'x A / 0,5 B' for all ordered pairs of {} rated currencies, x fractional / grouped, under all 4 conventions", nc),
+                move |ch| {
+                    let a = ch.pick(&curs).clone();
+                    let b = ch.pick(&curs).clone();
+                    let (x, g) = *ch.pick(&[("12.5", false), ("1234.5", true)]);
+                    let n = format!("N:{}{}", x, if g { "g" } else { "" });
+                    let t = match ch.choose(3) {
+                        0 => format!("{} C:{} K:to C:{}", n, a, b),
+                        1 => format!("{} C:{} O:+ N:2.5 C:{}", n, a, b),
+                        _ => format!("{} C:{} O:/ N:0.5 C:{}", n, a, b),
+                    };
+                    Some(Case::Line(corpus::tpl(&t)))
+                },
+            ));
+        }
         let ds = tier.pick(3, 4);
         f.push(Family::new(
             "switched-conventions",
